@@ -64,6 +64,41 @@ pub fn de_ser<T: DeserializeOwned + Serialize>(server: bool, doc: &[u8]) -> Resu
     conjure_serde::json::to_string(&v).map_err(|e| format!("re-serialization failed: {}", e))
 }
 
+/// a value read from `doc`, written with the JSON and the Smile serializer and read back through every entry point of
+/// both sides: each must give back an equal value
+pub fn round<T: DeserializeOwned + Serialize + PartialEq + Debug>(doc: &[u8]) -> Result<(), String> {
+    let v: T = conjure_serde::json::client_from_slice(doc).map_err(|e| format!("the document itself is rejected: {}", e))?;
+    let j = conjure_serde::json::to_vec(&v).map_err(|e| format!("json::to_vec failed: {}", e))?;
+    let js = String::from_utf8(j.clone()).map_err(|e| e.to_string())?;
+    let s = conjure_serde::smile::to_vec(&v).map_err(|e| format!("smile::to_vec failed: {}", e))?;
+    let mut s1 = s.clone();
+    let mut s2 = s.clone();
+    let reads: Vec<(&str, Result<T, String>)> = vec![
+        ("json::client_from_slice", conjure_serde::json::client_from_slice(&j).map_err(|e| e.to_string())),
+        ("json::client_from_str", conjure_serde::json::client_from_str(&js).map_err(|e| e.to_string())),
+        ("json::client_from_reader", conjure_serde::json::client_from_reader(&j[..]).map_err(|e| e.to_string())),
+        ("json::server_from_slice", conjure_serde::json::server_from_slice(&j).map_err(|e| e.to_string())),
+        ("json::server_from_str", conjure_serde::json::server_from_str(&js).map_err(|e| e.to_string())),
+        ("json::server_from_reader", conjure_serde::json::server_from_reader(&j[..]).map_err(|e| e.to_string())),
+        ("smile::client_from_slice", conjure_serde::smile::client_from_slice(&s).map_err(|e| e.to_string())),
+        ("smile::client_from_mut_slice", conjure_serde::smile::client_from_mut_slice(&mut s1).map_err(|e| e.to_string())),
+        ("smile::client_from_reader", conjure_serde::smile::client_from_reader(std::io::BufReader::new(&s[..])).map_err(|e| e.to_string())),
+        ("smile::server_from_slice", conjure_serde::smile::server_from_slice(&s).map_err(|e| e.to_string())),
+        ("smile::server_from_mut_slice", conjure_serde::smile::server_from_mut_slice(&mut s2).map_err(|e| e.to_string())),
+        ("smile::server_from_reader", conjure_serde::smile::server_from_reader(std::io::BufReader::new(&s[..])).map_err(|e| e.to_string())),
+    ];
+    for (how, r) in reads {
+        match r {
+            Err(e) => return Err(format!("{} rejects what the serializer wrote ({}): {}", how, if how.starts_with("json") { js.clone() } else { format!("{} Smile bytes", s.len()) }, e)),
+            // equal as Conjure values: the same document again (an `any` holding 7 may come back as another integer
+            // representation of 7; derived equality on `Any` would tell those apart)
+            Ok(w) if w != v && conjure_serde::json::to_string(&w).ok() != Some(js.clone()) => return Err(format!("{} reads back {:?}, written from {:?}", how, w, v)),
+            Ok(_) => {}
+        }
+    }
+    Ok(())
+}
+
 pub fn laws<T: DeserializeOwned + Clone + Ord + Hash + Debug>(docs: [&[u8]; 3]) -> Result<Laws, String> {
     let vs: Vec<T> = docs.iter().map(|d| de::<T>(false, d)).collect::<Result<_, _>>()?;
     let mut l = Laws { eq: [[false; 3]; 3], cmp: [[0; 3]; 3], partial_is_cmp: true, lt_le_consistent: true, hash_eq: [[false; 3]; 3], btree_finds: true, hashset_finds: true };
@@ -121,6 +156,8 @@ pub struct Entry {
     pub de_ser: fn(&str, bool, &[u8]) -> Result<String, String>,
     pub laws: fn([&[u8]; 3]) -> Result<Laws, String>,
     pub set_probe: fn(&[&[u8]]) -> Result<(usize, usize, bool, bool, bool), String>,
+    /// (configuration, document) -> round trip through both serializers and all twelve entry points
+    pub round: fn(&str, &[u8]) -> Result<(), String>,
 }
 
 macro_rules! make_registry {
@@ -137,6 +174,11 @@ macro_rules! make_registry {
                     },
                     laws: |docs| laws::<plain::$name>(docs),
                     set_probe: |docs| set_probe::<plain::$name>(docs),
+                    round: |cfg, doc| match cfg {
+                        "exhaustive" => round::<exhaustive::$name>(doc),
+                        "empties" => round::<empties::$name>(doc),
+                        _ => round::<plain::$name>(doc),
+                    },
                 },
             )*]
         }
